@@ -199,9 +199,9 @@ class MatrixExpression:
     def __rtruediv__(self, other: float | int) -> MatrixExpression:
         """Right scalar division: other / self."""
         rows, cols = self.shape
-        const = Constant(other)
+        numer = _reflected_numerators(other, rows, cols)
         result_exprs = [
-            [BinaryOp(const, self._expressions[i][j], "/") for j in range(cols)]
+            [BinaryOp(numer[i][j], self._expressions[i][j], "/") for j in range(cols)]
             for i in range(rows)
         ]
         return MatrixExpression(result_exprs)
@@ -264,6 +264,23 @@ class MatrixExpression:
             >>> s = (X * Y).sum()  # Hadamard product, then sum
         """
         return MatrixSum(self)
+
+
+def _reflected_numerators(
+    other: float | int | NDArray | list, rows: int, cols: int
+) -> list[list[Expression]]:
+    """Numerators for ``other / matrix``: a broadcast scalar or an array of matching shape."""
+    if isinstance(other, (np.ndarray, list, tuple)) and np.ndim(other) > 0:
+        arr = np.asarray(other)
+        if arr.shape != (rows, cols):
+            raise DimensionMismatchError(
+                operation="division",
+                left_shape=arr.shape,
+                right_shape=(rows, cols),
+            )
+        return [[Constant(arr[i, j]) for j in range(cols)] for i in range(rows)]
+    const = Constant(other)
+    return [[const for _ in range(cols)] for _ in range(rows)]
 
 
 def _matrix_binary_op(
@@ -976,9 +993,9 @@ class MatrixVariable:
     def __rtruediv__(self, other: float | int) -> MatrixExpression:
         """Right division: scalar / X."""
         rows, cols = self.shape
-        const = Constant(other)
+        numer = _reflected_numerators(other, rows, cols)
         result_exprs = [
-            [BinaryOp(const, self._variables[i][j], "/") for j in range(cols)]
+            [BinaryOp(numer[i][j], self._variables[i][j], "/") for j in range(cols)]
             for i in range(rows)
         ]
         return MatrixExpression(result_exprs)
